@@ -336,6 +336,25 @@ def _check_case(case, res):
             res["marker_cmrs_distinct"] = len(set(n["cmr"] for n in d["nodes"] if "marker" in n))
             res["marker_nodes"] = sum(1 for n in d["nodes"] if "marker" in n)
             res["tracked_table"] = sorted(set((t["kind"].split("(")[0], nows(t["text"])) for t in d.get("tracked", [])))
+            # what each marker wraps: assertl(drop body): the body must fit the kind the marker resolves to, and one
+            # marker CMR must wrap one kind of body only (two call sites sharing a marker show up here)
+            bodies = {}
+            mismatch = []
+            for n in d["nodes"]:
+                if "marker" not in n:
+                    continue
+                dn = d["nodes"][n["l"]]
+                body = d["nodes"][dn["l"]] if dn["k"] == "drop" and "l" in dn else dn
+                shape = body["k"] + (":" + body["jet"] if body["k"] == "jet" else "")
+                bodies.setdefault(n["cmr"], set()).add(shape)
+                kind = n["marker"]["kind"].split("(")[0]
+                ok = {"Jet": body["k"] == "jet" and body.get("jet") != "verify", "Assert": body["k"] == "jet" and body.get("jet") == "verify",
+                      "Panic": body["k"] == "fail", "Debug": body["k"] == "iden", "Unwrap": body["k"] == "comp",
+                      "UnwrapLeft": body["k"] == "comp", "UnwrapRight": body["k"] == "comp"}.get(kind, True)
+                if not ok:
+                    mismatch.append((kind, n["marker"]["text"][:60], shape))
+            res["marker_body_mismatch"] = mismatch[:5]
+            res["marker_shared"] = [c for c, sh in bodies.items() if len(sh) > 1][:5]
             res["tracked_cmrs_distinct"] = len(set(t["cmr"] for t in d.get("tracked", []))) == len(d.get("tracked", []))
     m0, d0 = machines[case.debug_modes[0]]
     # debug-symbol bookkeeping (structural facts about the concrete artefact)
@@ -346,6 +365,10 @@ def _check_case(case, res):
             return {"status": "violation", "kind": "markers", "detail": "a debug marker is entered with a tag that is not the constant `false`"}
         if not res.get("tracked_cmrs_distinct", True):
             return {"status": "violation", "kind": "markers", "detail": "two tracked call sites share a marker CMR"}
+        if res.get("marker_shared"):
+            return {"status": "violation", "kind": "markers", "detail": "one marker CMR wraps different kinds of call bodies (two call sites share a marker): %s" % res["marker_shared"][:2]}
+        if res.get("marker_body_mismatch"):
+            return {"status": "violation", "kind": "markers", "detail": "a marker resolves to a kind that does not fit the call it wraps: %s" % res["marker_body_mismatch"][:2]}
         if case.prog is not None:
             expected = sorted(S.tracked_calls(case.prog))
             if [list(x) for x in expected] != [list(x) for x in res["dag_markers"]]:
